@@ -13,7 +13,8 @@ import urllib.parse
 import common, enc, impl
 import segno
 
-TOP = ['theories/Props/C12.v', 'theories/Tie/TieTables.v']
+TOP = ['theories/Props/C12.v', 'theories/Tie/TieTables.v', 'theories/Tie/TieRouteSave.v', 'theories/Tie/TieRouteSeq.v',
+       'theories/Tie/TieRouteCli.v', 'theories/Lemmas/CaseLemmas.v']
 RULE = ('symbols x all 13 output kinds x serializer option sets x routes: file name (lower / upper / mixed case extension), stream with kind=..., '
         'png/svg data URIs decoded, svg_inline, gunzipped .svgz, command line with the corresponding flags, terminal vs. no output, sequences '
         'saved to name.ext; byte comparison with the three timestamp fields masked')
@@ -242,7 +243,8 @@ def run(ctx):
         # names and directories containing further dots; a one-symbol sequence keeps the name
         single = segno.make_sequence('AB', version=1)
         for sub, name in (('', 'qr.v2.svg'), ('', 'a.b.c.png'), ('', 'x.tar.txt'), ('dir.with.dots', 'plain.svg'),
-                          ('dir.d', 'p.q.svg'), ('', '.hidden.svg')):
+                          ('dir.d', 'p.q.svg'), ('', '.hidden.svg'),
+                          ('', 'a{b}.svg'), ('', 'a}.svg'), ('', 'x{0}.png'), ('', '{1:02d}.txt'), ('br{ace', 'q.svg')):
             n += 1
             dd = os.path.join(d, 'sq%d' % n, sub) if sub else os.path.join(d, 'sq%d' % n)
             os.makedirs(dd, exist_ok=True)
@@ -265,7 +267,7 @@ def run(ctx):
                                  'observed': names if r[0] == 'ok' else r[1], 'expected': [name]})
         # model correspondence for the naming function: the files written for arbitrary names = Route.sequence_filename
         rq, ex = [], []
-        for name in ('qr.v2.svg', 'a.b.c.png', 'nodot', '.svg', 'x..txt', 'd.e/f.svg', 'd.e/f', 'tr.', 'UP.PNG'):
+        for name in ('qr.v2.svg', 'a.b.c.png', 'nodot', '.svg', 'x..txt', 'd.e/f.svg', 'd.e/f', 'tr.', 'UP.PNG', 'a{b}.svg', 'x{0}.png', 'a}}.svg'):
             for m_ in (1, 2, 12):
                 created = []
 
